@@ -630,6 +630,8 @@ def run(c, prog):
     rule_float(c, prog)
     rule_twopass(c, prog)
     rule_name(c, prog)
+    from . import C06 as _C06
+    _C06.rule_name(core.Alias(c, "C02"), prog)     # names read back: not when the element is dropped as an unknown property
     from . import C02_type
     C02_type.run(c, prog)
     from . import C02_tok
